@@ -378,6 +378,7 @@ var importSwap = map[string]string{
 	"sync":        shimPath + "/vsync",
 	"sync/atomic": shimPath + "/vatomic",
 	"math/rand":   shimPath + "/vrand",
+	"math/rand/v2": shimPath + "/vrand",
 }
 
 func (rw *rewriter) fixImports() {
